@@ -188,6 +188,9 @@ pub struct XmlTreeBuilder<Handle, Sink> {
 
     /// Current tree builder phase.
     phase: Cell<XmlPhase>,
+
+    /// Has a DOCTYPE already been appended to the document?
+    seen_doctype: Cell<bool>,
 }
 impl<Handle, Sink> XmlTreeBuilder<Handle, Sink>
 where
@@ -208,6 +211,7 @@ where
             namespace_stack: RefCell::new(NamespaceMapStack::new()),
             current_namespace: RefCell::new(NamespaceMap::empty()),
             phase: Cell::new(XmlPhase::Start),
+            seen_doctype: Cell::new(false),
         }
     }
 
@@ -662,8 +666,14 @@ where
                     XmlProcessResult::Reprocess(XmlPhase::End, Token::Eof)
                 },
                 Token::Doctype(d) => {
-                    self.append_doctype_to_doc(d);
-                    XmlProcessResult::Done
+                    // A document has at most one DOCTYPE.
+                    if self.seen_doctype.replace(true) {
+                        self.sink
+                            .parse_error(Borrowed("Unexpected second DOCTYPE in start phase"));
+                        XmlProcessResult::Done
+                    } else {
+                        self.append_doctype_to_doc(d)
+                    }
                 },
                 _ => {
                     self.sink
